@@ -250,14 +250,38 @@ def list_model(tier='quick', seed=0):
             ok = False
         if not ok:
             fails.append({'call': f'Array({dt!r}, {vals}) {op.__name__} {v}', 'python': "FAILS = True"})
-        # a failing in-place operator leaves the Array unchanged
-        a2 = Array('uint8', vals)
+        # in-place operators: the list model's result, or ValueError with the Array unchanged -- also when only *some* items overflow
+        iops = [(operator.iadd, operator.add), (operator.isub, operator.sub), (operator.imul, operator.mul), (operator.ifloordiv, operator.floordiv),
+                (operator.ilshift, operator.lshift), (operator.irshift, operator.rshift)]
+        dt2 = rng.choice(['uint8', 'int8', 'uint12', 'intle16'])
+        d2 = Dtype(dt2)
+        lo, hi = (-(1 << (d2.bitlength - 1)), (1 << (d2.bitlength - 1)) - 1) if d2.is_signed else (0, (1 << d2.bitlength) - 1)
+        vals2 = [rng.choice([lo, hi, 0, 1, rng.randint(lo, hi), rng.randint(lo // 4, hi // 4)]) for _ in range(rng.randint(1, 6))]
+        iop, pop_ = rng.choice(iops)
+        v2 = rng.choice([0, 1, 2, 3, 10, 100]) if iop in (operator.ilshift, operator.irshift) else rng.choice([1, 2, 3, 10, 100, -1, -7, hi // 2])
+        tb2 = rng.choice(['', '', '0b1'])
+        a2 = Array(dt2, vals2, trailing_bits=tb2 or None)
         before = a2.data.bin
+        evals += 1
+        desc2 = f"a = Array({dt2!r}, {vals2!r}, trailing_bits={tb2!r}); a {iop.__name__} {v2}"
         try:
-            a2 += 250
-        except ValueError:
-            if a2.data.bin != before:
-                fails.append({'call': f"Array('uint8', {vals}) += 250 changed the Array although it raised", 'python': "FAILS = True"})
+            want2 = [pop_(x, v2) for x in vals2]
+            fits = all(lo <= w <= hi for w in want2)
+        except (ZeroDivisionError, ValueError):
+            want2, fits = None, False
+        try:
+            a2 = iop(a2, v2)
+            ok2 = fits and a2.tolist()[:len(vals2)] == want2
+        except (ValueError, ZeroDivisionError):
+            ok2 = (not fits) and a2.data.bin == before
+        except Exception:
+            ok2 = False
+        if not ok2:
+            fails.append({'call': desc2 + (' (must succeed with the list result)' if fits else ' (must raise and leave a unchanged)'),
+                          'python': 'import bitstring, operator\nfrom bitstring import Array\n'
+                                    f"a = Array({dt2!r}, {vals2!r}, trailing_bits={(tb2 or None)!r}); before = a.data.bin\n"
+                                    f"try:\n    a = operator.{iop.__name__}(a, {v2})\n    FAILS = not ({fits} and a.tolist()[:{len(vals2)}] == {want2!r})\n"
+                                    f"except (ValueError, ZeroDivisionError):\n    FAILS = {fits} or a.data.bin != before\n"})
     return {'id': 'C14.list_model', 'obligations': [], 'evaluations': evals,
             'bounded': [{'id': 'C14/array_.Array/list-model-differential', 'qualname': 'array_.Array', 'shape': 'random ops', 'function': 'Array slices/reverse/tolist/count/equals/copy/extend/operators',
                          'bound': f'{N} random single operations on Arrays of <= 7 items x 8 dtypes with/without trailing bits; {N // 2} element-wise operator cases',
